@@ -6,7 +6,8 @@
    events (dial result, write progress, response head, body, peer close, timer, the caller's
    context ending at any position) and scheduling choices (which ready select case is taken). *)
 From Coq Require Import List.
-From ReqV Require Import Model.Lifecycle Proofs.Reach Proofs.LifecycleProofs Proofs.LifecycleThms.
+From ReqV Require Import Model.Lifecycle Model.LifecycleH2 Model.RetryLife Proofs.Reach Proofs.LifecycleProofs
+  Proofs.LifecycleThms Proofs.LifecycleH2Proofs Proofs.RetryLifeProofs.
 Import ListNotations.
 
 (* HTTP/1.1: wherever the context ended, once everything has settled the caller holds an error
@@ -60,6 +61,68 @@ Theorem C08_h1_no_retry_after_cancel : forall c s l s', reach1 c s -> user_ctx s
   step1 c s l = Some s' -> attempt s' = attempt s.
 Proof. exact h1_no_retry_after_cancel. Qed.
 Print Assumptions C08_h1_no_retry_after_cancel.
+
+(* ---- HTTP/2 (ClientConn.roundTrip + doRequest/cleanupWriteRequest), all event/schedule sequences ---- *)
+
+Theorem C08_h2_errors_identify : forall hb s, reach2 hb s -> failed2 s = false ->
+  (forall e, c2 s = CRet (CErr e) -> exists c, ctx2 s = Some c /\ e = ECause c) /\
+  (forall e, pipe2 s = BErr e -> exists c, ctx2 s = Some c /\ e = ECause c).
+Proof. exact h2_errors_identify. Qed.
+Print Assumptions C08_h2_errors_identify.
+
+(* once the context has ended neither the caller nor the doRequest goroutine can be stuck *)
+Theorem C08_h2_cancel_progress : forall hb s, reach2 hb s -> (exists c, ctx2 s = Some c) ->
+  (returned2 s = false -> exists l, In l [JResp; JAbort; JCtx; JDone; JDoneCtx; KCtx; KAbort; KPeerEnd] /\ step2 hb s l <> None) /\
+  (exited2 s = false -> returned2 s = false -> exists l, In l [KCtx; KAbort; KPeerEnd; JCtx] /\ step2 hb s l <> None).
+Proof. exact h2_cancel_progress. Qed.
+Print Assumptions C08_h2_cancel_progress.
+
+(* settled after a cancellation: RST_STREAM(CANCEL) only if the headers were sent, no RST_STREAM
+   only if they were not or the stream was closed on both sides; request body closed; donec closed *)
+Theorem C08_h2_rst_iff_open_stream : forall hb s, reach2 hb s -> settled2 hb s = true ->
+  (exists c, ctx2 s = Some c) -> failed2 s = false ->
+  (rst2 s = Some RstCancel -> sent_hdr s = true) /\
+  (rst2 s = Some RstNoError -> sent_hdr s = true /\ sent_end s = false) /\
+  (rst2 s = None -> sent_hdr s = false \/ (sent_end s = true /\ peer_end s = true)) /\
+  (hb = true -> bclosed2 s = true) /\ donec2 s = true.
+Proof. exact h2_rst_iff_open_stream. Qed.
+Print Assumptions C08_h2_rst_iff_open_stream.
+
+(* ---- retry layer (Request.do), all label sequences, any retry limit ---- *)
+
+Theorem C08_no_retry_after_cancel : forall max s l s' c,
+  r_ctx s = Some c -> rstep true max s l = Some s' ->
+  r_attempt s' = r_attempt s /\ r_net s' = r_net s.
+Proof. exact retry_no_new_attempt_after_cancel. Qed.
+Print Assumptions C08_no_retry_after_cancel.
+
+Theorem C08_retry_sleep_interruptible : forall max s c,
+  r_phase s = PSleep -> r_ctx s = Some c ->
+  exists s', rstep true max s RSleepCtx = Some s' /\ r_phase s' = PRet (Some (ECause c)) /\
+             r_net s' = r_net s.
+Proof. exact retry_sleep_interruptible. Qed.
+Print Assumptions C08_retry_sleep_interruptible.
+
+Theorem C08_retry_returns_within : forall max s l s' c,
+  r_ctx s = Some c -> is_rcancel l = false -> rstep true max s l = Some s' -> rmu s' < rmu s /\ rmu s <= 2.
+Proof. exact retry_returns_within. Qed.
+Print Assumptions C08_retry_returns_within.
+
+Theorem C08_retry_returns_cause : forall max ls s s' c e,
+  r_ctx s = Some c -> (forall x, r_phase s <> PRet x) -> only_ctx_results ls = true ->
+  rrun true max s ls = Some s' -> r_phase s' = PRet (Some e) -> e = ECause c.
+Proof. exact retry_returns_cause. Qed.
+Print Assumptions C08_retry_returns_cause.
+
+(* the pinned retry loop (time.Sleep; only context.Canceled ends it) violates both *)
+Theorem C08_retry_pinned_sleep_not_interruptible : forall max s,
+  r_phase s = PSleep -> rstep false max s RSleepCtx = None.
+Proof. exact retry_pinned_sleep_not_interruptible. Qed.
+
+Theorem C08_retry_pinned_deadline_never_stops : forall n,
+  exists s, rrun false None rinit (RCancel CDeadline :: spin n) = Some s /\
+            r_attempt s = n /\ r_phase s = PAttempt.
+Proof. exact retry_pinned_deadline_never_stops. Qed.
 
 Example C08_nonvacuous :
   let c := mkCfg1 false true true in
